@@ -4,9 +4,9 @@ CONSTANTS
   LowBits = 1
   SvcDomains <- AllSvcDomains
   Svc2Domains <- AllSvcDomains
-  Scale = 2
+  Scale = 1
   MaxAdmin = 2
   MaxQuery = 2
-  Fault = "none"
-  MaxLen = 3
+  Fault = "count-denied"
+  MaxLen = 2
 INVARIANTS TypeOK LogExactlyOnce StatsTotals DeniedLeavesNoTrace EffectOfSettings ViewSound
